@@ -71,7 +71,7 @@ def build_libs(pid, cfgs):
     names = {c.name for c in cfgs}
     for e in os.listdir(od):
         p = os.path.join(od, e)
-        if p not in keep and e.rsplit('-', 1)[0] in names:
+        if p not in keep and e.rsplit('-', 1)[0] in names and time.time() - os.path.getmtime(p) > 2 * 3600:
             import shutil
             shutil.rmtree(p, ignore_errors=True)
     return libs, fails
